@@ -135,7 +135,7 @@ func init() {
 			return []string{"release"}
 		},
 		Required: []string{"kind/uint", "kind/uintptr", "kind/int", "kind/bool", "kind/complex128", "kind/string", "kind/slice", "kind/array", "kind/map",
-			"kind/ptr", "kind/interface", "kind/struct", "nil/ptr", "nil/interface", "nil/slice", "nil/map", "empty/slice", "empty/map", "nil/argument", "stat/avg", "named", "large-containers", "containers>=4096-elements", "named/embedding", "named/interior-pointers", "depth>1000", "same-named-distinct-types"},
+			"kind/ptr", "kind/interface", "kind/struct", "nil/ptr", "nil/interface", "nil/slice", "nil/map", "empty/slice", "empty/map", "nil/argument", "stat/avg", "named", "large-containers", "containers>=4096-elements", "named/embedding", "named/interior-pointers", "rejected-value-then-valid-one", "depth>1000", "same-named-distinct-types"},
 		Families: func(c *mon.Config) []mon.Family {
 			return []mon.Family{
 				{Name: "cold-start", N: 1, Serial: true, Run: func(w *mon.W, _ int) {
@@ -445,7 +445,33 @@ func c20Literal(v reflect.Value) int {
 }
 
 // c20Observe calls size.Of and size.Stat on x and compares with the expected size.
+// c20Rejected: size.Of on a value that holds an unsupported kind (a channel, a func) panics "unknown kind"; a caller
+// may recover from that. The call must leave nothing behind: the next measurement is checked as usual.
+func c20Rejected(w *mon.W) {
+	bad := struct {
+		A []int32
+		B interface{}
+		C string
+		D map[string]int8
+	}{A: []int32{1, 2, 3}, B: make(chan int), C: "left over", D: map[string]int8{"k": 1}}
+	func() {
+		defer func() {
+			if recover() != nil {
+				w.Bucket("rejected-value-then-valid-one")
+			}
+		}()
+		w.Op = "size.Of(value holding a channel)"
+		size.Of(bad)
+	}()
+}
+
 func c20Observe(w *mon.W, x interface{}, expected int, class string) {
+	if n, _ := w.State["c20rej"].(int); true {
+		w.State["c20rej"] = n + 1
+		if n%16 == 0 {
+			c20Rejected(w)
+		}
+	}
 	typ := fmt.Sprintf("%T", x)
 	w.Op, w.Obj = "size.Of", typ
 	if lit := c20Literal(reflect.ValueOf(x)); lit != expected {
